@@ -534,23 +534,42 @@ fn stale_updater_case(case: u64, rng: &mut Rng, rep: &mut Report) {
         rep.count("stale_updater:merge_gate_not_reached", 1);
         return;
     }
+    // variant "dropped": the writer is dropped (not rolled back) while the merge thread is still
+    // parked; the merge only ends after the successor has committed
+    let dropped = rng.chance(1, 3);
     // deletes committed while the merge runs: end_merge will have a .del file to write for the
     // merged segment, which is where the old updater is parked
-    ex.step(&Op::DeleteTerm(Pred::Grp(0)));
-    if rng.bool() {
-        ex.step(&Op::DeleteTerm(Pred::Grp(1)));
+    if !dropped || rng.bool() {
+        ex.step(&Op::DeleteTerm(Pred::Grp(0)));
+        if rng.bool() {
+            ex.step(&Op::DeleteTerm(Pred::Grp(1)));
+        }
+        ex.step(&Op::Add(marker(&mut g)));
+        ex.step(&Op::Commit);
     }
-    ex.step(&Op::Add(marker(&mut g)));
-    ex.step(&Op::Commit);
-    let gate2 = mon.add_gate(OpPred::kind(OpKind::OpenWrite).role("updater").fkind("del"), 0);
-    mon.release_gate(gate1);
-    let parked2 = mon.wait_parked(gate2, Duration::from_secs(5));
-    rep.count(if parked2 { "stale_updater:old_updater_parked_in_end_merge" } else { "stale_updater:end_merge_wrote_no_del" }, 1);
+    let (gate2, parked2) = if dropped {
+        (gate1, true)
+    } else {
+        let gate2 = mon.add_gate(OpPred::kind(OpKind::OpenWrite).role("updater").fkind("del"), 0);
+        mon.release_gate(gate1);
+        let parked2 = mon.wait_parked(gate2, Duration::from_secs(5));
+        (gate2, parked2)
+    };
+    rep.count(
+        if dropped {
+            "stale_updater:merge_thread_parked_across_writer_drop"
+        } else if parked2 {
+            "stale_updater:old_updater_parked_in_end_merge"
+        } else {
+            "stale_updater:end_merge_wrote_no_del"
+        },
+        1,
+    );
     // the writer is replaced and the replacement commits
     for _ in 0..rng.urange(0, 2) {
         ex.step(&Op::Add(g.doc(rng, 2)));
     }
-    ex.step(&Op::Rollback);
+    ex.step(&if dropped { Op::Reopen { wait_merges: false } } else { Op::Rollback });
     for _ in 0..rng.urange(0, 3) {
         ex.step(&Op::Add(g.doc(rng, 2)));
     }
@@ -611,7 +630,11 @@ fn stale_updater_case(case: u64, rng: &mut Rng, rep: &mut Report) {
         rep.violation(format!("stale-updater:{}", v.sig), json!({"case": case, "detail": v.detail}));
     }
     if parked2 {
-        rep.nontrivial(format!("stale-updater:nseg={nseg}:{}:{outcome}", if second_index { "second-index" } else { "same-index" }));
+        rep.nontrivial(format!(
+            "stale-updater:{}:nseg={nseg}:{}:{outcome}",
+            if dropped { "writer-dropped" } else { "rolled-back" },
+            if second_index { "second-index" } else { "same-index" }
+        ));
     }
 }
 
@@ -652,7 +675,13 @@ fn overlapping_reload_case(case: u64, rng: &mut Rng, rep: &mut Report) {
     let gate_kind = rng.below(3);
     // a reload only opens the files of segments it does not hold yet
     let nth = rng.below(6);
-    let gate = mon.add_gate(OpPred::kind(OpKind::OpenRead).role("reader"), if gate_kind == 0 { 0 } else { nth });
+    // either inside the loading of the segments (the meta lock is held: a second reload cannot
+    // even start loading), or right after the meta lock has been released, before the swap
+    let gate = if gate_kind == 0 {
+        mon.add_gate(OpPred::kind(OpKind::LockRelease).role("reader").path(".tantivy-meta.lock"), 0)
+    } else {
+        mon.add_gate(OpPred::kind(OpKind::OpenRead).role("reader"), nth)
+    };
     let spawn_reload = |name: &str, reader: IndexReader| {
         std::thread::Builder::new()
             .name(name.to_string())
@@ -700,7 +729,7 @@ fn overlapping_reload_case(case: u64, rng: &mut Rng, rep: &mut Report) {
                 } else if parked && *m.last().unwrap() != last {
                     errs.push((
                         "overlap:reader-shows-an-older-commit-after-both-reloads-returned".into(),
-                        json!({"observed_commit": m, "last_commit": last, "gate": if gate_kind == 0 { "open#0".to_string() } else { format!("open#{nth}") }}),
+                        json!({"observed_commit": m, "last_commit": last, "gate": if gate_kind == 0 { "after-meta-lock-release".to_string() } else { format!("open#{nth}") }}),
                     ));
                 }
             }
@@ -713,7 +742,7 @@ fn overlapping_reload_case(case: u64, rng: &mut Rng, rep: &mut Report) {
         rep.violation(sig, json!({"case": case, "detail": d}));
     }
     if parked {
-        rep.nontrivial(format!("overlap:nseg={nseg}:open#{}", if gate_kind == 0 { 0 } else { nth }));
+        rep.nontrivial(format!("overlap:nseg={nseg}:{}", if gate_kind == 0 { "after-meta-lock-release".to_string() } else { format!("open#{nth}") }));
     }
 }
 
